@@ -168,9 +168,63 @@ def enumerate_cases(tier, shard=0, nshards=1):
         out.append({'tree': ['IF', c, ['spy', 1, ['c', 5]], None]})
         out.append({'tree': ['IF', c, ['c', 5], None]})
         out.append({'tree': ['NOT', c]})
+    # AND / OR over UNWRAPPED arguments of different shapes (cells,
+    # constants, computed comparisons, ranges, nested calls), every ordered
+    # pair and triple: arguments count in the order in which they are written
+    import itertools
+    for fn in ('AND', 'OR'):
+        for n in (2, 3):
+            for items in itertools.permutations(range(len(ORDER_POOL)), n):
+                out.append({'k': 'order', 'fn': fn, 'items': list(items)})
     for i, c in enumerate(out):
         if i % nshards == shard:
             yield c
+
+
+# (formula text, value) over A1 TRUE, A2 FALSE, A3 0, A4 5, C2 0, D1 2,
+# B1:B3 = TRUE, blank, 1 and G1:G2 = #N/A, 0
+ORDER_POOL = [('A1', True), ('A2', False), ('1', True), ('0', False),
+              ('A4/A3>1', '#DIV/0!'), ('D1>1', True), ('C2>1', False),
+              ('G1:G2', '#N/A'), ('B1:B3', True), ('NOT(A1)', False)]
+
+
+def _order_case(case, res):
+    fn = case['fn']
+    items = [ORDER_POOL[i] for i in case['items']]
+    text = '=%s(%s)' % (fn, ','.join(t for t, _ in items))
+    cells, presets = {}, {}
+    for a, v in CELLS.items():
+        if v is None:
+            continue
+        if isinstance(v, bool):
+            cells['Sheet1!' + a] = 0
+            presets['Sheet1!' + a] = v
+        elif isinstance(v, Err):
+            cells['Sheet1!' + a] = ERRFORM[v.code]
+        else:
+            cells['Sheet1!' + a] = v
+    obs = lib.eval_formula(text, cells, addr='Sheet1!Q1', presets=presets)[0]
+    decide = (fn == 'OR')
+    # (i) one after the other, stopping at the first deciding value
+    lazy = None
+    for _, v in items:
+        if isinstance(v, str):
+            lazy = ('E', v)
+            break
+        if v is decide:
+            lazy = ('B', decide)
+            break
+    if lazy is None:
+        lazy = ('B', not decide)
+    # (ii) all of them: the first error, else the conjunction / disjunction
+    errs = [v for _, v in items if isinstance(v, str)]
+    eager = ('E', errs[0]) if errs else lazy
+    res.nontrivial = True
+    res.labels = ('order', fn, 'n:%d' % len(items))
+    if obs != lazy and obs != eager:
+        res.fail('arguments-not-taken-in-written-order:%s' % fn,
+                 [lazy, eager], obs, text)
+    return res
 
 
 # ------------------------------------------------------------ rendering
@@ -376,6 +430,13 @@ def ref_eval(t, log, must, mustnot):
                     return UNDEF
                 vals.append(tv)
         n_eval = sum(1 for a in t[1] if a[1] in log)
+        # arguments are taken in the order in which they are written: the
+        # evaluated ones form a PREFIX of the list (an argument may only be
+        # skipped once the arguments before it have decided the result)
+        flags = [a[1] in log for a in t[1]]
+        if any(later and not earlier for earlier, later in
+               zip(flags, flags[1:])) and not (CRASHED[0]):
+            return ('OUT-OF-ORDER', k, flags)
         if first_err is not None:
             return ('ERR-OR-DECIDED', first_err, k, vals)
         if lenient is not None:
@@ -422,6 +483,8 @@ def ntag(v):
 
 def judge(case):
     res = Result()
+    if case.get('k') == 'order':
+        return _order_case(case, res)
     tree = case['tree']
     xl = lib.lib()
     FNSPELL[0] = case.get('fnspell', 0)
@@ -519,6 +582,10 @@ def _assess(case, res, tree, text, obs, log, stage):
         res.fail('skipped-argument-before-decided:%s' % want[1],
                  'all arguments evaluated or result decided', sorted(log),
                  text)
+        return res
+    if isinstance(want, tuple) and want and want[0] == 'OUT-OF-ORDER':
+        res.fail('argument-evaluated-before-an-earlier-one:%s' % want[1],
+                 'arguments evaluated in written order', want[2], text)
         return res
     if isinstance(want, tuple) and want and want[0] == 'ERR-OR-VALUE':
         if obs[0] != 'E' and obs != ('B', want[3]):
